@@ -120,9 +120,13 @@ package s2
 
 //@ spec func vcWfLoopShape(l *Loop) bool = l != nil && len(l.vertices) >= 1
 
+// i mod n without a division for the two cases every caller uses (i < n, i == n)
+//@ spec func vcWrap(i, n int) int = vcIf(i < n, i, vcIf(i == n, 0, i%n))
+
 //@ func (l *Loop) Vertex(i int) Point
 //@   requires vcWfLoopShape(l) && 0 <= i
 //@   ensures vcSame(result, l.vertices[i%len(l.vertices)])
+//@   ensures [wrap] vcSame(result, l.vertices[vcWrap(i, len(l.vertices))])
 
 //@ func (l *Loop) Edge(i int) Edge
 //@   requires vcWfLoopShape(l) && 0 <= i && i < l.NumEdges()
